@@ -539,9 +539,16 @@ class StateEngine(object):
         in the ASL Engine at the moment this defensive logic will terminate
         the execution should this situation occur.
         """
-        if next_state == None:
+        if not (isinstance(next_state, str) and next_state):
+            """
+            A state name is a non-empty string. Anything else here (None, an
+            empty string, a number, an object...) is not the name of a state:
+            publishing an event with an empty name would even be taken for the
+            start event of the execution and run it all over again.
+            """
             error_message = ("{} an error occurred while executing the state "
-                             "\"{}\": Mandatory \"Next\" field is missing, "
+                             "\"{}\": Mandatory \"Next\" field is missing "
+                             "or is not the name of a state, "
                              "Illegal State Machine."
                              ).format(execution_arn, state["Name"])
             self.logger.error(error_message)
